@@ -8,6 +8,17 @@ COMMON_NOTE = ("Trusted: Lean 4.33 kernel; axioms propext/Classical.choice/Quot.
                "the extractor and the differential harness; the Lean compiler only to execute the oracle. ")
 
 TEXTS = {
+    "C03": {
+        "text": "Theorems for chains of any length over any operators and atoms (Lemmas/Prec.lean, Props/C03.lean): chain_yield (nothing "
+                "lost or reordered), chain_wellGrouped (left operand binds >= parent, right operand > parent: five levels, left "
+                "associative), chain_unique (the only tree over that token sequence with this grouping), chain_reparse, spine_le_four "
+                "(the insertion loop descends at most four nodes: linear time), emb_insertT (the Expr-level loop of the parser model is "
+                "that abstract loop), gen_precedence_levels / gen_operators_have_levels by decide over the precedence table regenerated "
+                "from token.go; negated_operand_counterexample (kernel-checked) for the known printing defect. Tie: the full "
+                "expression parser model (scanner, token ring, parameter substitution, ParseExpr/parseUnaryExpr/parseCall/parseRegex/"
+                "ParseVarRef) is executed against the real ParseExpr on exhaustive small chains and random expressions.",
+        "note": COMMON_NOTE + "regexp.Compile, ParseFloat/FormatFloat and unicode.ToLower are oracle calls / parameters of the model (see evidence).",
+    },
     "C06": {
         "text": "Theorems for all strings: scan_quoteString (QuoteString(s) scans as one STRING with value s and stops exactly at the "
                 "closing quote, for every s without NUL/CR, at any cursor and before any following text), quoteString_contained (for "
